@@ -98,7 +98,7 @@ DoBase(sc, st0, a) ==
         m == HasMeta(sc, st)
     IN CASE a = "ok"            -> Reply(sc, st, "result", "", m)
          [] a = "ok-nil"        -> Reply(sc, st, "result", "", m)
-         [] a = "ok-bad"        -> Reply(sc, st, "error", "system.internalError", FALSE)   \* unmarshalable result
+         [] a \in {"ok-bad", "ok-bad-reserr", "ok-bad-wrapped"} -> Reply(sc, st, "error", "system.internalError", FALSE)   \* unmarshalable result, whatever error the encoder reports
          [] a = "resource"      -> Reply(sc, st, "resource", "", m)
          [] a = "resource-bad"  -> Panic(st, "other")                                      \* invalid rid
          [] a \in {"error-res", "error-res-ctl"}     -> Reply(sc, st, "error", "custom.error", m)
@@ -118,7 +118,7 @@ DoBase(sc, st0, a) ==
          [] a = "model"         -> Reply(sc, st, "result", "", FALSE)
          [] a = "querymodel"    -> Reply(sc, st, "result", "", FALSE)
          [] a = "collection"    -> Reply(sc, st, "result", "", FALSE)
-         [] a = "model-bad"     -> Reply(sc, st, "error", "system.internalError", FALSE)
+         [] a \in {"model-bad", "model-bad-reserr", "collection-bad-wrapped"} -> Reply(sc, st, "error", "system.internalError", FALSE)
          [] a = "new"           -> Reply(sc, st, "result", "", FALSE)
          [] a = "new-bad"       -> Panic(st, "other")
          [] a \in {"timeout", "timeout-max", "timeout-sub", "timeout-zero"} -> Publish(st, "reply", "pre")
@@ -131,6 +131,9 @@ DoBase(sc, st0, a) ==
          [] a = "ev-add-bad"    -> IF sc.rt = "model" THEN Panic(st, "other") ELSE EmitUnpublished(sc, st, "add", sc.ap.add)
          [] a = "tokenevent"    -> Publish(st, "token", "token")
          [] a = "ev-custom"     -> Emit(sc, st, "custom", "absent")
+         [] a = "ev-dollar"     -> Emit(sc, st, "$foo", "absent")       \* any printable token without . * > ? is a valid custom event name
+         [] a = "ev-punct"      -> Emit(sc, st, "x-y_z~", "absent")
+         [] a \in {"ev-empty", "ev-space", "ev-wild", "ev-gt", "ev-q", "ev-del", "ev-dot"} -> Panic(st, "other")   \* malformed names: nothing published
          [] a = "ev-reserved"   -> Panic(st, "other")
          [] a = "ev-malformed"  -> Panic(st, "other")
          [] a = "ev-change"     -> IF sc.rt = "collection" THEN Panic(st, "other") ELSE Emit(sc, st, "change", sc.ap.change)
